@@ -6,6 +6,7 @@ requested cell (R-index + the injective data codes); which points hit which cell
 exact containment oracle, not from emsarray.
 """
 import itertools
+import warnings
 import math
 
 import numpy
@@ -192,9 +193,50 @@ def check_case(case, ctx):
                 nontrivial = True
             _check_points(ctx, spec, ds, conv, preq, xys, hits, misses, face_vars, all_dims)
 
+    _check_edited_in_place(ctx, spec, ds, enums)
     ctx.label("conv:" + spec["conv"])
     ctx.label("mode:" + spec.get("mode", "raw"))
     ctx.nontrivial(nontrivial)
+
+
+def _check_edited_in_place(ctx, spec, ds, enums):
+    """History on one dataset object: select, then replace / add / delete variables in place
+    (ds[name] = ..., del ds[name]), then select again - the second answer reflects the dataset
+    as it is now.  (Done on a shallow copy with its own convention, so that the dataset handed
+    out by open_case stays untouched.)"""
+    numeric = [v for v in spec["vars"] if v["kind"] == "face" and v["dtype"] != "M8"]
+    if not numeric or spec["conv"] == "arakawa":
+        return
+    work = ds.copy()
+    with warnings.catch_warnings():
+        warnings.simplefilter("ignore")
+        conv = specs.bind_convention(dict(spec, warmup=[]), work)
+    n_cells = refmodel.grid_size(spec, "face")
+    lins = sorted({0, n_cells - 1, n_cells // 2})
+    natives = [refmodel.native_index(spec, "face", lin, enums["face"]) for lin in lins]
+    victim = numeric[0]["name"]
+    doomed = numeric[-1]["name"] if len(numeric) > 1 else None
+    ctx.at("C05.select_after_in_place_edit")
+    first = conv.select_indexes(natives)
+    before = numpy.asarray(first[victim].values, dtype="float64")
+    work[victim] = work[victim].astype("float64") * 2 + 1
+    work["added_later"] = work[victim] * 0 + 7
+    if doomed is not None:
+        del work[doomed]
+    what = f"select_indexes({lins}) after {victim} was replaced, added_later added" + (
+        f" and {doomed} deleted" if doomed else "") + " in place"
+    with ctx.using("C05.select_after_in_place_edit", what):
+        second = work.ems.select_indexes(natives)
+        got = numpy.asarray(second[victim].values, dtype="float64")
+        ctx.check(got.shape == before.shape and numpy.array_equal(got, before * 2 + 1, equal_nan=True),
+                  "C05.select_after_in_place_edit",
+                  lambda: f"{what}: {victim} = {got.tolist()}; the dataset now holds "
+                  f"{(before * 2 + 1).tolist()} there")
+        ctx.check("added_later" in second.variables, "C05.select_after_in_place_edit",
+                  lambda: f"{what}: the new variable is missing from the selection")
+        ctx.check(doomed is None or doomed not in second.variables, "C05.select_after_in_place_edit",
+                  lambda: f"{what}: the deleted variable {doomed} is still selected")
+    ctx.label("history:edited_in_place_between_selections")
 
 
 def _check_points(ctx, spec, ds, conv, preq, xys, hits, misses, face_vars, all_dims):
